@@ -309,3 +309,41 @@ func addUpgradeOps(l *OpLib) {
 		p.Txs = one("donor", &banktypes.MsgSend{FromAddress: w.A("donor").Addr.String(), ToAddress: w.PoolAddr(2).String(), Amount: sdk.NewCoins(C("uatom", 5000000))})
 	})
 }
+
+// ---------------------------------------------------------------------------------------------
+// A GOVERNANCE CHANGE THAT IS EXECUTED AND THEN DISCARDED: "rolledback[<config op>]" runs the governance steps of
+// a configuration op on a branch of the state and then drops the branch — what happens to an earlier message of a
+// multi-message proposal when a later one fails, and to every message of a simulated transaction. The committed
+// state is untouched by construction, so on a correct tree the op is indistinguishable from an empty block.
+func (l *OpLib) rolledBackOf(name string) *Op {
+	if !strings.HasPrefix(name, "rolledback[") || !strings.HasSuffix(name, "]") {
+		return nil
+	}
+	inner, ok := l.ops[name[len("rolledback["):len(name)-1]]
+	if !ok {
+		return nil
+	}
+	op := &Op{Name: name, Kind: "rolled_back_config", Dev: inner.Dev, Plan: func(w *World, p *BlockPlan) {
+		sub := &BlockPlan{Dt: 5, Feed: true}
+		inner.Plan(w, sub)
+		steps := sub.Gov
+		p.Gov = append(p.Gov, func(ctx sdk.Context) error {
+			for _, g := range steps {
+				if err := g(ctx); err != nil {
+					return err
+				}
+			}
+			return fmt.Errorf("a later message of the proposal fails: the whole branch is dropped")
+		})
+	}}
+	l.ops[name] = op
+	return op
+}
+
+func rolledBack(names []string) []string {
+	out := make([]string, 0, len(names))
+	for _, n := range names {
+		out = append(out, "rolledback["+n+"]")
+	}
+	return out
+}
